@@ -16,7 +16,8 @@
      squash li l         l without its entry of level li, the levels above li renumbered down by one
      up_level li j       position in the original tree of level j of the tree without level li *)
 From Coq Require Import ZArith List Bool Permutation Lia.
-From CTM Require Import Base.Sx Base.SortX Model.Tree Proofs.TreeP Proofs.TreeBackfillP.
+From CTM Require Import Base.Sx Base.SortX Model.Tree Model.TreeReread Proofs.TreeP Proofs.TreeBackfillP
+  Proofs.TreeRereadP.
 Import ListNotations.
 Open Scope Z_scope.
 
@@ -268,10 +269,10 @@ Theorem c10_flatten_preserves : forall t, validate t = true -> wf t ->
 Proof. exact flatten_preserves. Qed.
 Print Assumptions c10_flatten_preserves.
 
-(* to_str / from_str.  On the modelled content to_str() followed by from_str() is the identity
-   (compared literally by the harness); with drop_cells=True the result is `drop_cells t`:
-   accepted, same levels, same nodes, same inner levels, no rows, same ancestors, and
-   is_equal_to the original (which is reflexive) *)
+(* to_str / from_str with drop_cells=True: the result is `drop_cells t`: accepted, same levels,
+   same nodes, same inner levels, no rows, same ancestors, and is_equal_to the original.
+   (The plain round trip is c10_reread_preserves below.  The last conjunct, is_equal_to t t, holds
+   by construction of the model -- set_eqb is reflexive --; its content is in the tie.) *)
 Theorem c10_roundtrip_preserves : forall t, validate t = true -> wf t ->
   validate (drop_cells t) = true /\ wf (drop_cells t) /\ length (drop_cells t) = length t /\
   (forall k, nodes (nth k (drop_cells t) []) = nodes (nth k t [])) /\
@@ -281,6 +282,73 @@ Theorem c10_roundtrip_preserves : forall t, validate t = true -> wf t ->
   is_equal_to t (drop_cells t) = true /\ is_equal_to t t = true.
 Proof. exact roundtrip_preserves. Qed.
 Print Assumptions c10_roundtrip_preserves.
+
+(* plain to_str() / from_str() (Model/TreeReread.v).  clean_for_json turns every Python *set* into the
+   sorted list of its elements and keeps the order of every list, tuple and dict; json keeps both.
+   Which child collections are sets is not part of the model's tree (get_taxonomy_tree / from_h5ad:
+   the children of every non-leaf node; a tree read from JSON: none; drop_level of the former: all
+   but the rebuilt level), so it is an argument: fs, shaped like the tree, true = set.  The re-read
+   tree is then `reread fs t`, and it is NOT t in general (c10_ex_reread).
+
+   General fact first: two trees with the same levels, the same keys in the same order and, per
+   key, child collections that are permutations of one another (tree_perm, restated at the end of
+   the file) are indistinguishable for the validator, for dict well-formedness, for nodes, for the
+   child -> parent table, for parents() INCLUDING when it raises, for children() up to order
+   (including when it raises), for is_equal_to and __eq__; their leaf lists and leaf pairs are
+   permutations of one another. *)
+Theorem c10_child_order_irrelevant : forall t u, tree_perm t u -> validate t = true -> wf t ->
+  validate u = true /\ wf u /\ length u = length t /\
+  (forall k, nodes (nth k u []) = nodes (nth k t [])) /\
+  (forall k c, parent_of (nth k u []) c = parent_of (nth k t []) c) /\
+  (forall li x, ancestors u li x = ancestors t li x) /\
+  (forall li x, ancestors_chk u li x = ancestors_chk t li x) /\
+  (forall parent, Permutation (children u parent) (children t parent)) /\
+  (forall li x, match children_chk t li x, children_chk u li x with
+                | TOk a, TOk b => Permutation b a
+                | TErr c, TErr d => c = d
+                | _, _ => False
+                end) /\
+  (forall li x, Permutation (leaves_of u li x) (leaves_of t li x)) /\
+  (forall parent, Permutation (leaf_pairs u parent) (leaf_pairs t parent)) /\
+  is_equal_to t u = true /\ tree_eqb t u = true.
+Proof. exact child_order_irrelevant. Qed.
+Print Assumptions c10_child_order_irrelevant.
+
+(* the round trip, for every accepted tree and EVERY assignment of "set" / "list" to its child
+   collections: accepted again, same levels, per level the same nodes in the same order, the same
+   child -> parent table, the same ancestors of every (level, node) -- and the same KeyError where
+   parents() raises --, the children of every parent (the root included) permuted, the same
+   RuntimeError where children() raises, the leaf list of every node permuted, the leaf pairs of
+   every parent permuted (as name-ordered pairs: leaf_pairs applies order_pair to each), equal to
+   the original for is_equal_to and for __eq__ *)
+Theorem c10_reread_preserves : forall fs t, validate t = true -> wf t ->
+  validate (reread fs t) = true /\ wf (reread fs t) /\ length (reread fs t) = length t /\
+  (forall k, nodes (nth k (reread fs t) []) = nodes (nth k t [])) /\
+  (forall k c, parent_of (nth k (reread fs t) []) c = parent_of (nth k t []) c) /\
+  (forall li x, ancestors (reread fs t) li x = ancestors t li x) /\
+  (forall li x, ancestors_chk (reread fs t) li x = ancestors_chk t li x) /\
+  (forall parent, Permutation (children (reread fs t) parent) (children t parent)) /\
+  (forall li x, match children_chk t li x, children_chk (reread fs t) li x with
+                | TOk a, TOk b => Permutation b a
+                | TErr c, TErr d => c = d
+                | _, _ => False
+                end) /\
+  (forall li x, Permutation (leaves_of (reread fs t) li x) (leaves_of t li x)) /\
+  (forall parent, Permutation (leaf_pairs (reread fs t) parent) (leaf_pairs t parent)) /\
+  is_equal_to t (reread fs t) = true /\ tree_eqb t (reread fs t) = true.
+Proof. exact reread_preserves. Qed.
+Print Assumptions c10_reread_preserves.
+
+(* the shape of the re-read tree: related to t; a tree without sets comes back literally; every
+   entry keeps its key and has its collection sorted exactly when it is flagged as a set *)
+Theorem c10_reread_shape : forall fs t,
+  tree_perm t (reread fs t) /\ reread flags_json t = t /\
+  (forall fl lv i, (i < length lv)%nat ->
+     nth i (reread_level fl lv) (0, []) =
+     (fst (nth i lv (0, [])),
+      if nth i fl false then zsort (snd (nth i lv (0, []))) else snd (nth i lv (0, [])))).
+Proof. exact reread_shape. Qed.
+Print Assumptions c10_reread_shape.
 
 (* ====================================================================== backfill (used by C01 / C17) *)
 
@@ -352,6 +420,33 @@ Proof.
   - intros k a Hk. destruct k as [|[|[|k]]]; cbn [nth]; intros E; inversion E; subst; try reflexivity. lia.
   - split; [reflexivity|]. eexists. split; vm_compute; reflexivity.
 Qed.
+(* the audit's witness: the tree get_taxonomy_tree builds from three cells (children are a set, here
+   iterated in order of first appearance) does not come back literally, and leaves_to_compare
+   lists the same pairs in another order; a set-free tree comes back literally *)
+Example c10_ex_reread :
+  get_taxonomy_tree 2 [[0; 11]; [0; 10]; [0; 12]] = TOk built /\
+  flags_built built = [[true]] /\
+  reread (flags_built built) built = built_reread /\ built <> built_reread /\
+  reread flags_json built = built /\
+  leaf_pairs built (Some (0%nat, 0)) = [(10, 11); (11, 12); (10, 12)] /\
+  leaf_pairs built_reread (Some (0%nat, 0)) = [(10, 11); (10, 12); (11, 12)] /\
+  leaf_pairs built (Some (0%nat, 0)) <> leaf_pairs built_reread (Some (0%nat, 0)).
+Proof. exact built_witness. Qed.
+(* the hypotheses of c10_reread_preserves on ex3 with sets at the two inner levels (and, to show a
+   mixed state, one leaf whose rows are a set): the keys stay where they are, [11;10] [21;20] [2;1]
+   come back sorted, [23;24] was sorted already *)
+Example c10_ex_reread_ex3 :
+  validate ex3 = true /\ wf ex3 /\
+  reread [[true; true]; [true; true; true]; [false; true]] ex3 =
+    [ [(1, [12]); (0, [10; 11])];
+      [(10, [20; 21]); (12, [23; 24]); (11, [22])];
+      [(20, [0]); (21, [1; 2]); (22, []); (23, [3]); (24, [4])] ] /\
+  leaf_pairs ex3 None = [(21, 23); (20, 23); (22, 23); (21, 24); (20, 24); (22, 24)] /\
+  leaf_pairs (reread (flags_built ex3) ex3) None = [(20, 23); (21, 23); (22, 23); (20, 24); (21, 24); (22, 24)].
+Proof.
+  split; [vm_compute; reflexivity|]. split; [apply wf_small; reflexivity|].
+  split; [vm_compute; reflexivity|]. split; vm_compute; reflexivity.
+Qed.
 (* a mutant of each rejected class on ex3 (the duplicate child was accepted before the repair of F3),
    and the F3 witnesses themselves: well-formed dicts, refused *)
 Example c10_ex_mutants :
@@ -412,6 +507,14 @@ Example c10_def_mutations : forall lv p c x cs,
   add_child lv p c = map (fun nc => if fst nc =? p then (fst nc, snd nc ++ [c]) else nc) lv /\
   add_node lv x cs = lv ++ [(x, cs)].
 Proof. intros. split; reflexivity. Qed.
+Example c10_def_tree_perm : forall t u,
+  tree_perm t u <->
+  Forall2 (Forall2 (fun a b : node * list Z => fst a = fst b /\ Permutation (snd a) (snd b))) t u.
+Proof. intros. reflexivity. Qed.
+Example c10_def_reread_witnesses :
+  built = [[(0, [11; 10; 12])]; [(11, [0]); (10, [1]); (12, [2])]] /\
+  built_reread = [[(0, [10; 11; 12])]; [(11, [0]); (10, [1]); (12, [2])]].
+Proof. split; reflexivity. Qed.
 Example c10_def_witnesses :
   f3_tree = [[(0, [1; 1; 2])]; [(1, []); (2, [])]] /\
   f3_tree_rows = [[(0, [1; 1; 2])]; [(1, [7]); (2, [8])]] /\
